@@ -25,14 +25,15 @@ ApplyNotes(h, ns, i) == IF i > Len(ns) THEN h ELSE ApplyNotes([h EXCEPT ![ns[i][
 
 \* C13: the position most recently reported identifies exactly that element:
 \* reported positions of live elements are distinct and inside the heap
-HandlesOK(lv, h) == /\ \A e \in lv : h[e] >= 0 /\ h[e] < Cardinality(lv)
-                    /\ Cardinality({h[e] : e \in lv}) = Cardinality(lv)
+\* (a heap made without the record-cookie callback has no handles: only the minimum clauses apply to it)
+NoCb == Has("nocb") /\ Ev.nocb
+HandlesOK(lv, h) == NoCb \/ ((\A e \in lv : h[e] >= 0 /\ h[e] < Cardinality(lv)) /\ Cardinality({h[x] : x \in lv}) = Cardinality(lv))
 
 \* implementation model step: (heap', rc') given as a pair, compared with observation
 ImplStep(pair, lv, h) ==
-  /\ heap' = (IF drift THEN heap ELSE pair[1])
-  /\ rc' = (IF drift THEN rc ELSE pair[2])
-  /\ drift' = (IF drift THEN TRUE
+  /\ heap' = (IF drift \/ NoCb THEN heap ELSE pair[1])
+  /\ rc' = (IF drift \/ NoCb THEN rc ELSE pair[2])
+  /\ drift' = (IF drift \/ NoCb THEN TRUE
                ELSE IF \A e \in lv : pair[2][e] = h[e] THEN FALSE
                ELSE PrintT(<<"IMPLDRIFT", l>>))
 
